@@ -8,6 +8,8 @@ init accts=<key:outpoint:version:out,...> orders=<nonce:acct:allowed:notAllowed,
 validate id= tid= v= snap= ins= outs= lock= diffs=<key:newOutpoint|-:newVersion:newOut|-,...> m=<nonce:node,...>
 sign sf=<k|-> af=<k|-> st=<none|pre|inside> nonces=<a+b|-> prev=<csv|->
 finalize id= mf=<0|1>
+hsign parse=<0|1> chan=<0|1> send=<0|1> sf= af= st= nonces= prev=      (the handler's Sign case; output: the
+                                                                       messages/calls `ev=sign:ok|sign:fail|send:<n>|reject`)
 unstage
 ```
 Output: result class, for a successful sign the messages signed (`tx=<tid> sigs=key:idx:w:ht:out | key:idx:t:ht`),
@@ -146,6 +148,32 @@ def drvStep (s : St) (args : List String) : St × String :=
         | .sign .panic => "panic"
         | _ => "?"
       (r.1, out ++ tail r.1)
+  | "hsign" :: rest =>
+    match (do
+      let f ← parseFaults rest
+      let ns ← natList "+" (← kvGet rest "nonces")
+      let pv ← natList "," (← kvGet rest "prev")
+      let p ← (← kvGet rest "parse").toNat?
+      let c ← (← kvGet rest "chan").toNat?
+      let sd ← (← kvGet rest "send").toNat?
+      pure ({ parseOk := p == 1, chanOk := c == 1, sendOk := sd == 1, faults := f, nonces := ns, prev := pv } : HEnv)) with
+    | none => (s, "bad-op")
+    | some env =>
+      let h := handleSign s env
+      let evs := h.trace.reverse.filterMap fun e => match e with
+        | .batchSign true => some "sign:ok"
+        | .batchSign false => some "sign:fail"
+        | .sendSign S _ => some s!"send:{S.length}"
+        | .sendReject => some "reject"
+        | _ => none
+      let sent := h.trace.findSome? fun e => match e with
+        | .sendSign S _ => some S
+        | _ => none
+      let sigPart := match sent with
+        | some S => s!" tx={(h.st.pending.map Batch.tid).getD 0} sigs={fmtSigs S}"
+        | none => ""
+      let evStr := if evs.isEmpty then "-" else joinWith "," evs
+      (h.st, s!"ev={evStr}{sigPart} panicked={if h.panicked then 1 else 0}" ++ tail h.st)
   | "finalize" :: rest =>
     match (do
       let id ← (← kvGet rest "id").toNat?
